@@ -19,7 +19,8 @@ Hdr(c) == IF status = 0 THEN c ELSE status
 WH(c) == Len(hist) < MaxOps /\ status' = Hdr(c) /\ UNCHANGED <<cap, bytes>> /\ hist' = Append(hist, [op |-> "WH", x |-> c])
 W(acc) == Len(hist) < MaxOps /\ status' = Hdr(200) /\ bytes' = bytes + acc /\ UNCHANGED cap /\ hist' = Append(hist, [op |-> "W", x |-> acc])
 RF(acc) == Len(hist) < MaxOps /\ cap = "full" /\ status' = Hdr(200) /\ bytes' = bytes + acc /\ UNCHANGED cap /\ hist' = Append(hist, [op |-> "RF", x |-> acc])
-Next == (\E c \in {201, 404} : WH(c)) \/ (\E a \in {5, 4, 0} : W(a)) \/ (\E a \in {7, 3} : RF(a))
+\* 103: an informational code first is still the FIRST header the proxy saw (what it reports); later headers do not replace it
+Next == (\E c \in {201, 404, 103} : WH(c)) \/ (\E a \in {5, 4, 0} : W(a)) \/ (\E a \in {7, 3} : RF(a))
 Spec == Init /\ [][Next]_vars
 Emit == PrintT("@@SEQ|" \o cap \o "|" \o ToJson([ops |-> hist, status |-> status, size |-> bytes]))
 EmitAll == Emit
